@@ -259,6 +259,13 @@ class _ReusablePoolExecutor(ProcessPoolExecutor):
             # this lock, and _adjust_process_count iterates over that dict.
             with self._processes_management_lock:
                 self._adjust_process_count()
+            # Let the executor manager thread know about the new workers: it
+            # only watches the sentinels of the workers that existed when it
+            # last went back to waiting.
+            thread_wakeup = self._executor_manager_thread_wakeup
+            if thread_wakeup is not None:
+                with self._shutdown_lock:
+                    thread_wakeup.wakeup()
             # Workers that time out or die while we wait are removed from
             # self._processes by the executor manager thread (or the executor
             # is flagged as broken): look at the current set of workers, not at
